@@ -66,4 +66,20 @@ def renderUsesSync : Bool := true
 /-- number of Close() calls in html/manager.go (files opened by Parse must be closed) -/
 def managerCloseCalls : Nat := 1
 
+/-- html/scan_base.go: column delta of a tab in NextRune and in UnRead (0 = the tab case was not found) -/
+def tabAdvance : Int := 4
+def tabUnread : Int := -4
+/-- html/template.go: const maxFragmentDepth (0 = not found) -/
+def maxFragmentDepth : Nat := 256
+/-- exp/visitor.go IsInt: every case of the type switch with the expression it returns -/
+def isIntCases : List (String × String) := [("int", "int64(i), true"), ("int8", "int64(i), true"), ("int16", "int64(i), true"), ("int32", "int64(i), true"), ("int64", "int64(i), true"), ("uint", "int64(i), true"), ("uint8", "int64(i), true"), ("uint16", "int64(i), true"), ("uint32", "int64(i), true"), ("uint64", "int64(i), true")]
+/-- exp/visitor.go IsFloat: every case of the type switch with the expression it returns -/
+def isFloatCases : List (String × String) := [("float32", "float64(i), true"), ("float64", "i, true")]
+/-- html/scan_code.go: characters that open a string literal inside a block -/
+def blockStringOpeners : List String := ["\"", "'", "`"]
+/-- html/manager.go: the field (*tplManager).GetTemplate indexes by name -/
+def getTemplateLooksIn : String := "templates"
+/-- process-wide or manager-wide shared containers (sync.Pool / sync.Map variables and fields, package-level maps) -/
+def sharedContainers : List String := []
+
 end Facts
